@@ -2,6 +2,7 @@
 
 from __future__ import annotations
 
+import copy
 import re
 from collections import Counter
 
@@ -13,7 +14,7 @@ REG_INDEX = re.compile(r"^([a-z][\w_]*)\[(\d+)\]$")
 
 NAMES = ["a", "b", "c_0"]
 VALID_SCALARS = [0, 1, False, True]
-NONBITS = [2, -1, 0.5, "1", None]
+NONBITS = [2, -1, 0.5, "1", None, 1.0, 0.0]  # 1.0 == True and 0.0 == False, but a float is not a bit
 
 
 def is_bit(v):
@@ -97,8 +98,14 @@ def rep(x):
     return repr(x)
 
 
+SHARED: list = []  # list objects of the current run that were already given to some shot (reset per run)
+
+
 def gen_value(ch, nonbits: bool, nested: bool):
-    k = ch.weighted([6, 3, 1 if nonbits else 0, 1 if nested else 0], "valkind")
+    k = ch.weighted([6, 3, 1 if nonbits else 0, 1 if nested else 0, 1 if SHARED else 0], "valkind")
+    if k == 4:
+        # the caller passes a list it has already used for another entry or shot: the same object
+        return ch.pick(SHARED, "shared-list")
     if k == 0:
         return ch.pick(VALID_SCALARS, "bit")
     if k == 1:
@@ -106,6 +113,7 @@ def gen_value(ch, nonbits: bool, nested: bool):
         vs = [ch.pick(VALID_SCALARS, "bit") for _ in range(n)]
         if nonbits and ch.coin(1, 8, "badelem") and vs:
             vs[ch.draw(len(vs), "badpos")] = ch.pick(NONBITS, "nonbit")
+        SHARED.append(vs)
         return vs
     if k == 2:
         return ch.pick(NONBITS, "nonbit")
@@ -119,7 +127,8 @@ def gen_tag(ch, odd: bool):
         return name
     if k == 1:
         return f"{name}[{ch.draw(4, 'idx')}]"
-    return ch.pick([f"{name.upper()}[1]", f"{name}[01]", f"{name}[1", f"{name}[-1]"], "oddtag")
+    return ch.pick([f"{name.upper()}[1]", f"{name}[01]", f"{name}[1", f"{name}[-1]", f"_{name}[1]", f"2{name}[2]",
+                    f"out.{name}[0]", f" {name}[1]", f"X{name}[3]", f"{name}[1] ", f"{name}[0][1]"], "oddtag")
 
 
 def call(fn, *a, **kw):
@@ -135,6 +144,7 @@ def run(ctx):
     from hugr.qsystem.result import QsysResult, QsysShot
 
     ch = ctx.ch
+    del SHARED[:]
     nonbits = ch.coin(1, 3, "p-nonbits")
     nested = ch.coin(1, 4, "p-nested")
     odd = ch.coin(1, 4, "p-oddtags")
@@ -146,9 +156,10 @@ def run(ctx):
     for s in range(nshots):
         # a later shot may start as a copy of an earlier one (same registers/lengths -> strict flags pass)
         if s > 0 and ch.coin(1, 2, "copy-shot"):
-            base = list(logs[ch.draw(s, "which")])
+            j0 = ch.draw(s, "which")
+            base = list(shots[j0].entries)  # the same tuples and list objects as the earlier shot
             shot = QsysShot(base)
-            entries = list(base)
+            entries = copy.deepcopy(logs[j0])
             ctx.ev(s, "QsysShot(copy)", rep(base))
         else:
             shot = QsysShot()
@@ -168,12 +179,14 @@ def run(ctx):
                         continue
                 else:
                     shot.entries[j] = (tag, val)
-                    entries[j] = (tag, val)
+                    entries[j] = (tag, copy.deepcopy(val))
                     ctx.ev(s, "entries[j] = ...", [j, tag, rep(val)])
                 ctx.probe("entries_edited_in_place")
             else:
                 shot.append(tag, val)
-                entries.append((tag, val))
+                entries.append((tag, copy.deepcopy(val)))  # the oracle's log is private: what was written, as it was written
+                if isinstance(val, list) and sum(1 for x in SHARED if x is val) + sum(1 for sh in shots for _, v in sh.entries if v is val) + sum(1 for _, v in shot.entries if v is val) > 2:
+                    ctx.probe("one_list_object_in_several_entries")
             ctx.steps += 1
             exp, ambiguous = expected_bits(entries)
             got = call(shot.to_register_bits)
@@ -226,7 +239,7 @@ def run(ctx):
         ctx.probe("same_shot_object_listed_twice")
         res = QsysResult(shots)
     else:
-        res = QsysResult(shots if ch.coin(1, 2, "as-shots") else [list(e) for e in logs])
+        res = QsysResult(shots if ch.coin(1, 2, "as-shots") else [copy.deepcopy(e) for e in logs])
     ctx.steps += 1
     if not any_ambiguous:
         for sn in (False, True):
